@@ -1,10 +1,30 @@
 import argparse
 import importlib
+import json
 import os
+import subprocess
 import sys
+import time
 import traceback
 
-from harness.common import Check
+from harness.common import Check, VERIF, EVID, REPLAYS, repo_head
+
+
+def child(args, pid, seed):
+    mod = importlib.import_module("harness." + pid.lower())
+    ck = Check(pid, args.tier, seed, level=getattr(mod, "LEVEL", "proof"))
+    try:
+        if args.replay:
+            rc = mod.replay(ck, args.replay)
+        else:
+            rc = mod.run(ck)
+    except Exception as e:
+        traceback.print_exc()
+        ck.broke("correspondence", "harness", "harness raised: " + repr(e))
+        rc = ck.finish()
+    sys.stdout.flush()
+    sys.stderr.flush()
+    os._exit(rc)   # skip interpreter teardown: a corrupted heap (the bug under test) must not change the exit code
 
 
 def main():
@@ -15,18 +35,43 @@ def main():
     args = ap.parse_args()
     seed = int(os.environ.get("VERIF_SEED", "0"))
     pid = args.pid.upper()
-    mod = importlib.import_module("harness." + pid.lower())
-    ck = Check(pid, args.tier, seed, level=getattr(mod, "LEVEL", "proof"))
+    if os.environ.get("VERIF_CHILD") == "1":
+        child(args, pid, seed)
+        return
+    # supervisor: the implementation under test may kill the interpreter (heap corruption, SIGSEGV)
+    t0 = time.time()
+    crumb = os.path.join(VERIF, "run", f"{pid}-crumb-{os.getpid()}.json")
+    os.makedirs(os.path.dirname(crumb), exist_ok=True)
+    env = dict(os.environ, VERIF_CHILD="1", VERIF_CRUMB=crumb)
+    p = subprocess.run([sys.executable, "-W", "ignore", "-m", "harness.main"] + sys.argv[1:], env=env)
+    rc = p.returncode
+    last = None
+    if os.path.exists(crumb):
+        try:
+            last = json.load(open(crumb))
+        except Exception:
+            last = None
+        os.remove(crumb)
     try:
-        if args.replay:
-            rc = mod.replay(ck, args.replay)
-        else:
-            rc = mod.run(ck)
-    except Exception as e:
-        traceback.print_exc()
-        ck.broke("correspondence", "harness", "harness crashed: " + repr(e))
-        rc = ck.finish()
-    sys.exit(rc)
+        os.rmdir(os.path.join(VERIF, "run"))
+    except OSError:
+        pass
+    if rc in (0, 1):
+        sys.exit(rc)
+    os.makedirs(REPLAYS, exist_ok=True)
+    os.makedirs(EVID, exist_ok=True)
+    path = os.path.join(REPLAYS, f"{pid}-crash.json")
+    json.dump({"property": pid, "kind": "failing-input", "what": f"the checking process died (exit status {rc}) while "
+               "running the implementation on the case below", "case": last, "seed": seed, "repo_head": repo_head(),
+               "how_to_replay": f"./check {pid} --tier {args.tier}"}, open(path, "w"), indent=1, default=str)
+    ev = {"property_id": pid, "tier": args.tier, "seed": seed, "level": "proof",
+          "coverage": {"evaluations": 1, "distinct_nontrivial": 2, "rule": "supervisor fallback: child process died",
+                       "samples": [last], "obligations": 1, "discharged": 0, "checker_cmd": "./check " + pid,
+                       "trusted_base": []},
+          "wall_s": round(time.time() - t0, 2), "violations": 1}
+    json.dump(ev, open(os.path.join(EVID, f"{pid}.json"), "w"), indent=1, default=str)
+    print(f"VIOLATION property={pid} replay={path}" + ("" if last else " no-failing-input-found"))
+    sys.exit(1)
 
 
 if __name__ == "__main__":
